@@ -151,7 +151,7 @@ def _worker_task(args):
         while E.work and n < budget and time.time() < deadline:
             E.run_path(h.entry, E.work.pop()); n += 1
         st = E.stats
-        st['funcs'] = sorted(st['funcs']); st['leftover_work'] = list(E.work); st['leftover'] = 0
+        st['funcs'] = sorted(st['funcs']); st['leftover_work'] = list(E.work); st['leftover'] = 0; st.pop('sampled_labels', None)
         return st
     except Exception as e:
         return dict(error=traceback.format_exc(), leftover_work=[])
@@ -306,7 +306,7 @@ def run_property(prop, harnesses, tier, level_text, assumptions, outside, nproc=
         print('INCONCLUSIVE property=%s front end failed' % prop)
         return 2
     ir = json.load(open(irpath))
-    confirmed = []; spurious = []
+    confirmed = []; spurious = []; conformance = []
     for h in harnesses:
         deadline = time.time() + (budget_s or h.timeout_s)
         log('[%s] exploring %s (%s)' % (prop, h.name, h.bounds))
@@ -324,6 +324,22 @@ def run_property(prop, harnesses, tier, level_text, assumptions, outside, nproc=
             inconclusive.append('%s: exploration did not finish inside its budget (%d prefixes left)' % (h.name, st['leftover']))
         for lab in h.must_reach:
             if not st['reached'].get(lab): inconclusive.append('%s: vacuity: label %r never reached' % (h.name, lab))
+        # translator / model validation (Serval style): replay sample inputs of passing paths natively; the real build must
+        # reach the same label without failing an assertion, panicking or drawing a value the engine never drew
+        nconf = 0
+        smps = sorted(st['samples'], key=lambda x: st['reached'].get(x['reached'], 0))
+        for smp in smps[:(3 if tier == 'thorough' else 1)]:
+            d = os.path.join(VERIF, 'replays', prop, '%s_sample_%d' % (h.name, nconf))
+            if os.path.isdir(d): shutil.rmtree(d)
+            failed, panicked, out = replay(h, smp['inputs'], d, harnesses)
+            okc = 'VERIF-REPLAY-DONE' in out and not failed and not panicked and 'VERIF-MISSING-LABEL' not in out and 'VERIF-ASSUME-FAILED' not in out \
+                and ('VERIF-REACH: ' + smp['reached']) in out
+            conformance.append(dict(harness=h.name, reached=smp['reached'], agrees=okc))
+            log('[%s] native sample %s reach=%r -> %s' % (prop, h.name, smp['reached'], 'agrees' if okc else 'DIFFERS'))
+            if not okc:
+                inconclusive.append('%s: a sample input of a passing path behaves differently on the real build (reach %r; failed=%s panic=%s): model or harness environment inaccurate, see %s' % (h.name, smp['reached'], failed, panicked, d))
+            else: shutil.rmtree(d, ignore_errors=True)
+            nconf += 1
         # replay: one representative per (label) first, then more if spurious
         bylabel = {}
         for v in st['violations']: bylabel.setdefault((v['kind'], v['label']), []).append(v)
@@ -379,7 +395,7 @@ def run_property(prop, harnesses, tier, level_text, assumptions, outside, nproc=
         assertions=asserts,
         functions_encoded=func_hashes(ir, repo_funcs),
         frontend_s=round(fe_s, 2), solver='z3 %s (python API), timeout %ds/query' % (z3.get_version_string(), 30),
-        outside_claim=outside, known_findings_printed=sorted(known_seen), confirmed_violations=confirmed, spurious_models=spurious[:10],
+        native_conformance_samples=conformance, outside_claim=outside, known_findings_printed=sorted(known_seen), confirmed_violations=confirmed, spurious_models=spurious[:10],
         inconclusive=inconclusive, exhaustive=False)
     write_evidence(prop, tier, seed, cov, assumptions + sum([h.assumptions for h in harnesses], []), time.time() - t0, len(confirmed))
     try: os.remove(irpath)
